@@ -228,6 +228,34 @@ class Ctx:
             self.violation("design:%s:%s" % (module, r.violated), "TLC: %s violated in %s (%s)" % (r.violated, module, cfg), path)
         return r
 
+    def apalache(self, module, args, expect_error=False, timeout=900, note=None):
+        """Apalache (symbolic, unbounded over integers) on an annotated spec: used for inductive-invariant checks
+        (--init=IndInit --inv=IndInv --length=1).  expect_error: the as-found variant must be refuted."""
+        mpath = os.path.join(ROOT, "spec", module)
+        out = os.path.join(self.work, "apalache-%d" % len(self.tlc_runs))
+        cmd = ["apalache-mc", "check", "--out-dir=" + out] + list(args) + [os.path.basename(mpath)]
+        t = time.time()
+        try:
+            p = subprocess.run(cmd, stdout=subprocess.PIPE, stderr=subprocess.STDOUT, text=True, timeout=timeout, cwd=os.path.dirname(mpath))
+            rc, o = p.returncode, p.stdout
+        except subprocess.TimeoutExpired:
+            rc, o = 124, "TIMEOUT"
+        shutil.rmtree(out, ignore_errors=True)
+        ok = "EXITCODE: OK" in o
+        err = "Checker has found an error" in o
+        self.tlc_runs.append({"tool": "apalache", "module": module, "args": list(args), "result": "ok" if ok else ("error found" if err else "failed"),
+                              "wall_s": round(time.time() - t, 1), **({"note": note} if note else {})})
+        if expect_error:
+            if not err:
+                self.undecided.append("apalache self-test: %s %s was expected to be refuted: %s" % (module, args, o[-500:]))
+        elif err:
+            path = os.path.join(self.replays, "apalache-%s.txt" % os.path.basename(module))
+            open(path, "w").write(o)
+            self.violation("apalache:%s" % module, "Apalache refuted %s %s" % (module, " ".join(args)), path)
+        elif not ok:
+            self.undecided.append("apalache failed on %s: %s" % (module, o[-800:]))
+        return ok
+
     # ------------------------------------------------------------------ trace validation
     def validate(self, module, cfg, trace, dfs=False, timeout=900, resets=True, max_rejects=8, env=None, heap="8g", workers=1):
         """Leg B: validate an ND-JSON trace (executions separated by {"e":"Reset"} lines) against a
